@@ -1,8 +1,56 @@
 import Drv.Base
-open Lean Pdt
+import PdtModel.Model.Equals
+open Lean Pdt Pdt.Equals
 namespace Drv
 
-/-- op handler of the `Equals` layer (stub until the layer is built) -/
-def handleEquals (_op : String) (_j : Json) : Option (Except String Json) := none
+/-- scalar: {"n": tok} | {"s": str} | {"t": tok} | {"m": "none"|"nan"|"nat"|"na"} -/
+def scOfJson (j : Json) : Except String Sc :=
+  match j.getObjVal? "n" with
+  | .ok v => do let s ← v.getStr?; pure (.num s.toList)
+  | .error _ =>
+  match j.getObjVal? "s" with
+  | .ok v => do let s ← v.getStr?; pure (.str s.toList)
+  | .error _ =>
+  match j.getObjVal? "t" with
+  | .ok v => do let s ← v.getStr?; pure (.ts s.toList)
+  | .error _ =>
+  match j.getObjVal? "m" with
+  | .ok (.str "none") => pure (.miss .none)
+  | .ok (.str "nan") => pure (.miss .nan)
+  | .ok (.str "nat") => pure (.miss .nat)
+  | .ok (.str "na") => pure (.miss .na)
+  | _ => throw "bad scalar"
+
+def strList (j : Json) (k : String) : Except String (List Str) := do
+  (← getArr j k).mapM (fun v => do let s ← v.getStr?; pure s.toList)
+
+def eqRowOfJson (j : Json) : Except String (Sc × List Sc) := do
+  let a ← j.getArr?
+  match a.toList with
+  | [] => throw "row without index label"
+  | l :: cs => do pure (← scOfJson l, ← cs.mapM scOfJson)
+
+def eqTblOfJson (j : Json) : Except String Tbl := do
+  pure { sub := ← getBool j "sub", name := ← getStr j "name", dests := ← strList j "dests",
+         colNames := ← strList j "cols", units := ← strList j "units",
+         rows := ← (← getArr j "rows").mapM eqRowOfJson,
+         transposed := ← getBool j "transposed", origin := ← getStr j "origin" }
+
+def eqArgOfJson (j : Json) : Except String Arg :=
+  match j.getObjVal? "nt" with
+  | .ok v => do let s ← v.getStr?; pure (.notTable s.toList)
+  | .error _ => do pure (.table (← eqTblOfJson j))
+
+def handleEquals (op : String) (j : Json) : Option (Except String Json) :=
+  match op with
+  | "equals" => some do
+    let a ← eqTblOfJson (← j.getObjVal? "self")
+    let b ← eqArgOfJson (← j.getObjVal? "other")
+    pure (Json.bool (equals a b))
+  | "equal_or_same" => some do
+    let a ← scOfJson (← j.getObjVal? "a")
+    let b ← scOfJson (← j.getObjVal? "b")
+    pure (Json.bool (equalOrSame a b))
+  | _ => none
 
 end Drv
